@@ -257,10 +257,12 @@ struct optional {
     // clang-format on
     constexpr auto operator=(optional<U> const& other) -> optional&
     {
-        if (other.has_value()) {
-            emplace(*other);
-        } else {
+        if (not other.has_value()) {
             reset();
+        } else if (has_value()) {
+            **this = *other;
+        } else {
+            emplace(*other);
         }
 
         return *this;
@@ -288,10 +290,12 @@ struct optional {
     // clang-format on
     constexpr auto operator=(optional<U>&& other) -> optional&
     {
-        if (other.has_value()) {
-            emplace(*etl::move(other));
-        } else {
+        if (not other.has_value()) {
             reset();
+        } else if (has_value()) {
+            **this = *etl::move(other);
+        } else {
+            emplace(*etl::move(other));
         }
 
         return *this;
